@@ -3,6 +3,8 @@
 
 CaseSource source_for(const std::string &profile, const std::string &prop, int tier);
 int special_check(const std::string &prop, BatchCfg &cfg, bool &handled); // special.cc
+int c08_w2_fragment(BatchCfg cfg, std::string &json_fragment);
+int c14_strerror_fragment(std::string &json_fragment);
 
 struct CheckDef {
         const char *prop, *profile;
@@ -26,6 +28,10 @@ static const CheckDef defs[] = {
         { "C14", "desc", 12000, 200000, 100, 1500, "exploration", k_state_rule },
         { "C18", "cc", 12000, 200000, 100, 1500, "exploration", k_state_rule },
         { "C17", "indep", 6000, 100000, 100, 1500, "exploration", k_state_rule },
+        { "C08", "xvar", 4000, 80000, 100, 1500, "exploration", k_state_rule },
+        { "C12", "reject", 20000, 400000, 100, 1500, "fault_enumeration", k_state_rule },
+        { "C15", "reinit", 8000, 150000, 100, 1500, "exploration", k_state_rule },
+        { "C16", "reattach", 8000, 150000, 100, 1500, "exploration", k_state_rule },
 };
 
 int
@@ -51,6 +57,23 @@ check_main(const std::string &prop, BatchCfg cfg)
                         "a clean batch is sampled evidence, not proof"
                 };
                 CaseSource src = source_for(d.profile, prop, th);
+                if (prop == "C08") {
+                        // second half of the property first: CPU-feature loss (fault enumeration, single process)
+                        std::string frag;
+                        int w2 = c08_w2_fragment(cfg, frag);
+                        JW extra;
+                        extra.out = frag;
+                        int rc = run_batch(cfg, src, &extra);
+                        return rc ? rc : (w2 ? 1 : 0);
+                }
+                if (prop == "C14") {
+                        std::string frag;
+                        int se = c14_strerror_fragment(frag);
+                        JW extra;
+                        extra.out = frag;
+                        int rc = run_batch(cfg, src, &extra);
+                        return rc ? rc : (se ? 1 : 0);
+                }
                 return run_batch(cfg, src);
         }
         fprintf(stderr, "no check registered for %s\n", prop.c_str());
